@@ -23,6 +23,10 @@ type Violation struct {
 	Prop   string `json:"prop"`
 	Clause string `json:"clause"`
 	Detail string `json:"detail"`
+	// one-step extension (C11): the violation is about delivering message ExtMsg to node ExtPeer right after the trace
+	HasExt  bool `json:"-"`
+	ExtPeer int  `json:"-"`
+	ExtMsg  int  `json:"-"`
 }
 
 func (v Violation) FP() string { return v.Prop + ":" + v.Clause }
@@ -159,7 +163,7 @@ func (n *LNode) Step(e Event, raw *interfaces.ConsensusRawMessage, info ref.Info
 		defer func() {
 			if r := recover(); r != nil {
 				n.Dead = fmt.Sprint(r)
-				obs.Viol = append(obs.Viol, Violation{"C12", "panic", fmt.Sprintf("node n%d panicked on %c: %v", n.Idx, e.Kind, r)})
+				obs.Viol = append(obs.Viol, Violation{Prop: "C12", Clause: "panic", Detail: fmt.Sprintf("node n%d panicked on %c: %v", n.Idx, e.Kind, r)})
 			}
 		}()
 		switch e.Kind {
@@ -190,7 +194,7 @@ func (n *LNode) Step(e Event, raw *interfaces.ConsensusRawMessage, info ref.Info
 		fp, fc, fl := n.flags()
 		if stored || len(n.Comm.Outs) > preOuts || len(n.Blocks) > preCommits || height != preHeight || view != preView || fp != prePrep || fc != preComm || fl != preLatest {
 			if ok, why := n.mayInfluence(info, preHeight, preView); !ok {
-				obs.Viol = append(obs.Viol, Violation{"C08", "influence-" + why, fmt.Sprintf("n%d at (h%d,v%d) was influenced (stored=%v sent=%d view->%d) by %s, which must be ignored: %s", n.Idx, preHeight, preView, stored, len(n.Comm.Outs)-preOuts, view, info.Desc(), why)})
+				obs.Viol = append(obs.Viol, Violation{Prop: "C08", Clause: "influence-" + why, Detail: fmt.Sprintf("n%d at (h%d,v%d) was influenced (stored=%v sent=%d view->%d) by %s, which must be ignored: %s", n.Idx, preHeight, preView, stored, len(n.Comm.Outs)-preOuts, view, info.Desc(), why)})
 			}
 		}
 	}
@@ -212,7 +216,7 @@ func (n *LNode) Step(e Event, raw *interfaces.ConsensusRawMessage, info ref.Info
 		sh.TimedOutTo[view] = true
 	}
 	bad := func(prop, clause, format string, a ...interface{}) {
-		obs.Viol = append(obs.Viol, Violation{prop, clause, fmt.Sprintf("n%d: ", n.Idx) + fmt.Sprintf(format, a...)})
+		obs.Viol = append(obs.Viol, Violation{Prop: prop, Clause: clause, Detail: fmt.Sprintf("n%d: ", n.Idx) + fmt.Sprintf(format, a...)})
 	}
 
 	// ---- outputs, in emission order
